@@ -318,6 +318,10 @@ fn check_sqrt_value(model: &mut Model, r: &mut Report, x: f64, listed: &[String]
 fn replay_known(model: &mut Model, r: &mut Report) -> Vec<String> {
     let mut sqrt_listed = Vec::new();
     for entry in report::known_findings("C16") {
+        // a fixed entry excuses nothing: its witnesses live in corpus/C16 and must pass
+        if entry["status"] == "fixed" {
+            continue;
+        }
         let id = entry["id"].as_str().unwrap_or("?").to_owned();
         let witnesses: Vec<Value> = match &entry["witness"] {
             Value::Array(a) => a.clone(),
@@ -338,6 +342,26 @@ fn replay_known(model: &mut Model, r: &mut Report) -> Vec<String> {
         }
     }
     sqrt_listed
+}
+
+/// corpus/C16/*.json: minimised past disagreements and witnesses of fixed findings — judged like any program
+fn replay_corpus(model: &mut Model, r: &mut Report) {
+    let dir = concat!(env!("CARGO_MANIFEST_DIR"), "/../corpus/C16");
+    let mut files: Vec<_> = match std::fs::read_dir(dir) {
+        Ok(d) => d.filter_map(|e| e.ok()).map(|e| e.path()).collect(),
+        Err(_) => return,
+    };
+    files.sort();
+    for f in files {
+        let v: Value = match std::fs::read_to_string(&f).ok().and_then(|t| serde_json::from_str(&t).ok()) {
+            Some(v) => v,
+            None => continue,
+        };
+        if let (Some(rule), Some(code)) = (v["rule"].as_str(), v["code"].as_str()) {
+            check_rule(model, r, rule.trim_matches('\''), code);
+            r.count("corpus_replayed", 1);
+        }
+    }
 }
 
 fn run_replay(r: &mut Report, path: &str) {
@@ -385,6 +409,7 @@ pub fn run(report: &mut Report, replay: Option<&str>) {
     // ---- known findings first; sqrt boundary values
     {
         let mut model = Model::spawn();
+        replay_corpus(&mut model, report);
         let listed = replay_known(&mut model, report);
         let boundary: [f64; 16] = [
             0.0, -0.0, 1.0, 2.0, 0.25, 1e-320, f64::MIN_POSITIVE, f64::MAX, f64::INFINITY, f64::NEG_INFINITY,
@@ -470,6 +495,14 @@ pub fn run(report: &mut Report, replay: Option<&str>) {
                         r.hist("skipped", why);
                         r.case(None::<u8>);
                     }
+                }
+            }
+            // how much of the generated population lies inside the hypotheses of the WHOLE-RULE theorems
+            if let Ok(block) = exec::parse(&code) {
+                let sexp = crate::astsexp::block_to_sexp(&block);
+                for rule in ["convert_local_function_to_assign", "convert_function_to_assignment"] {
+                    let a = model.ask(&format!("c16.good {} {}", hex(rule.as_bytes()), sexp));
+                    r.hist(&format!("whole_rule_hypothesis:{}", rule), &a);
                 }
             }
             check_mentions(&mut model, r, &mut rng, &code);
